@@ -339,10 +339,24 @@ func runC27(c *fw.Ctx) {
 			stateList = append(stateList, k)
 		}
 	}
-	for _, b := range red { // single-path states (other path absent) come first
+	if c.Thorough() {
+		for _, b := range red { // single-path states (other path absent) come first
+			for _, a := range full {
+				addState(a, b)
+				addState(b, a)
+			}
+		}
+	} else {
+		// quick: every triple of one path with the other path absent, plus all
+		// pairs of the representative triples
 		for _, a := range full {
-			addState(a, b)
-			addState(b, a)
+			addState(a, red[0])
+			addState(red[0], a)
+		}
+		for _, a := range red {
+			for _, b := range red {
+				addState(a, b)
+			}
 		}
 	}
 	reducedN := len(stateList)
@@ -364,11 +378,23 @@ func runC27(c *fw.Ctx) {
 		inStar[s] = true
 	}
 	var cases [][]int
+	isRed := func(t [3]int) bool {
+		for _, r := range red {
+			if r == tri(t) {
+				return true
+			}
+		}
+		return false
+	}
 	for si, s := range stateList {
-		for _, cf := range star {
+		for ci, cf := range star {
+			if si >= reducedN && ci > 0 {
+				break // full x full states (thorough) run under the base configuration only
+			}
 			cases = append(cases, []int{s[0], s[1], s[2], s[3], s[4], s[5], cf[0], cf[1], cf[2], cf[3]})
 		}
-		if c.Thorough() && si < reducedN {
+		// thorough: the full 48-configuration product on the pairs of representative triples
+		if c.Thorough() && si < reducedN && isRed([3]int{s[0], s[1], s[2]}) && isRed([3]int{s[3], s[4], s[5]}) {
 			for fm := 0; fm < 2; fm++ {
 				for cr := 0; cr < 3; cr++ {
 					for ig := 0; ig < 4; ig++ {
@@ -391,7 +417,7 @@ func runC27(c *fw.Ctx) {
 	c.Bound("configs_per_state", len(star))
 	c.Bound("cases", len(cases))
 	c.Bound("extras", "always present: empty dir e/, untracked u/v, z.ign, d/z.ign")
-	c.SetRule("per path a (HEAD,index,worktree) triple over kinds -=absent 1/2=contents x=exec l=symlink i=intent-to-add t=type swap (2 stands for the CRLF twin of 1 when autocrlf is on); quick: full triple space of one path x 10 representative triples of the other (both ways), thorough: full x full; x configurations (core.fileMode, core.autocrlf, ignore file placement, mtime old|same-second-as-index) as a star (each alone + autocrlf with racy + all on; thorough adds the full product on the reduced states); states built with real git (reset/add -N on a stamped template); Worktree.Status compared per path with git status --porcelain=v1 -z --untracked-files=all --no-renames; non-trivial = git reports at least one path besides the fixed extras; distinct counts (config, multiset of XY codes of a and d/b)")
+	c.SetRule("per path a (HEAD,index,worktree) triple over kinds -=absent 1/2=contents x=exec l=symlink i=intent-to-add t=type swap (2 stands for the CRLF twin of 1 when autocrlf is on); quick: full triple space of one path with the other path absent (both ways) + all pairs of 6 representative triples, thorough: full x 10 representatives (both ways) + full x full; x configurations (core.fileMode, core.autocrlf, ignore file placement, mtime old|same-second-as-index) as a star (each alone + autocrlf with racy + all on; thorough: the full x full states under the base configuration only, and the full 48-configuration product on the pairs of representative triples); states built with real git (reset/add -N on a stamped template); Worktree.Status compared per path with git status --porcelain=v1 -z --untracked-files=all --no-renames; non-trivial = git reports at least one path besides the fixed extras; distinct counts (config, multiset of XY codes of a and d/b)")
 	c.Assume("git 2.39.5 status is the reference; git's type-change code T is read as M (go-git's StatusCode has no T); rename pairing is off (--no-renames); states with stat data matching a same-size different-content file are only produced with index mtime == file mtime (the racy case), never with an older file (that state needs utimes forgery)")
 
 	var fails hFailures
